@@ -77,6 +77,9 @@ func NewSchema(config SchemaConfig) (Schema, error) {
 	}
 	// Ensure directive definitions are error-free
 	for _, dir := range schema.directives {
+		if err = invariant(dir != nil, "Schema directives must not contain nil."); err != nil {
+			return schema, err
+		}
 		if dir.err != nil {
 			return schema, dir.err
 		}
@@ -102,6 +105,9 @@ func NewSchema(config SchemaConfig) (Schema, error) {
 	initialTypes = append(initialTypes, config.Types...)
 
 	for _, ttype := range initialTypes {
+		if err = invariant(!isNilType(ttype), "Schema types must not contain nil."); err != nil {
+			return schema, err
+		}
 		if ttype.Error() != nil {
 			return schema, ttype.Error()
 		}
@@ -196,6 +202,9 @@ func (gq *Schema) AddImplementation() error {
 //Edited. To check add Types at RunTime..
 //Append Runtime schema to typeMap
 func (gq *Schema) AppendType(objectType Type) error {
+	if err := invariant(!isNilType(objectType), "Cannot append a nil type."); err != nil {
+		return err
+	}
 	if objectType.Error() != nil {
 		return objectType.Error()
 	}
@@ -307,7 +316,10 @@ func (gq *Schema) AddExtensions(e ...Extension) {
 // map-reduce
 func typeMapReducer(schema *Schema, typeMap TypeMap, objectType Type) (TypeMap, error) {
 	var err error
-	if objectType == nil || objectType.Name() == "" {
+	if isNilType(objectType) {
+		return typeMap, nil
+	}
+	if objectType.Name() == "" {
 		return typeMap, nil
 	}
 
